@@ -96,6 +96,16 @@ CHECKS = {
         text="The body of the directive loop (one tag) is proved equal to the property's normalisation for every tag string and every caller vector, including the frame (other options untouched); line filtering / splitting / last-one-wins and equality with the API call are bounded stand-ins with options observed by rebinding compiler.Compiler.",
         design_ref="6.C15", note="str.strip / str.replace are uninterpreted functions shared by code and specification.",
         technique=TECH + "; bounded native check for the parts outside reach"),
+    "C04": dict(
+        category="exploration",
+        text="assign_colors is executed symbolically on the real source for every list of n <= 5 (thorough: 7) symbols with arbitrary integer lifetimes (complete case analysis per n: overlapping lifetimes get different colours, colours dense from 0); lifetime soundness and the allocator as a whole are exercised by the bounded simulation check (a clobbered live value shows up as a wrong effect) and a >16-live-values rejection check.",
+        design_ref="6.C04", note="K-bounded symbolic execution is not a proof for all n; sorted() is an assumed contract; known findings (alias, nested-loop lifetime, transitive blocking) replayed every run.",
+        technique=TECH + " (K-bounded: complete per list length); bounded native contract check of compile_code as stand-in"),
+    "C09": dict(
+        category="proof",
+        text="format_int (decision block), IC10Operand.__init__ and to_string{int} are proved against read-back specifications, the fold tables' kind clauses and an exhaustive scan of literal opcodes against the ISA table are discharged; float literals and whole outputs are checked by bounded stand-ins (read-back of printed doubles, grammar check of generated programs' outputs).",
+        design_ref="6.C09", note="Assumed library contracts for format()/str(); the small-magnitude float branch and whole outputs are bounded only; known findings (neg opcode, None operand, complex literal, >64-bit hex) replayed every run.",
+        technique=TECH + "; bounded native checks for the parts outside reach"),
 }
 NA = {}
 
